@@ -1,6 +1,7 @@
 CONSTANTS MaxSteps = 2
           Shape = "free"
-          SeedNames = {"num", "mixed", "dup"}
+          SeedNames = {"num", "mixed", "dup", "real"}
+          ErrOnly = {}
           Hist = FALSE
 INIT Init
 NEXT Next
